@@ -85,6 +85,11 @@ CHECKS = {
          "Every transition of a connection to Connected under key K (status change or handshake-complete interface event) must coincide with the delivery, on that connection, of a response whose signature verifies for K over a challenge that this node issued on this connection and had not accepted before; deliveries that complete nothing must leave every other authenticated connection and the key->connection index untouched. The undisturbed handshake must complete on both sides.",
          "Attacker cannot forge signatures; a live relay of the very challenge is counted, not flagged (it satisfies the statement's letter). Connection indices are fixed by the harness; rate limiters are not exhausted in these short sequences.",
          "DESIGN.md §3 C17"),
+ "C15": ("exploration",
+         "(a) property-based testing of the ancestor estimate on synthetic block rings with collision-free fingerprints; (b) deterministic-scheduler exploration of two real nodes (routing/verification/consensus threads): enumerated chain triples in order plus proptest-generated triples and schedules (message, fetch-completion and internal-event interleavings), convergence oracle at quiescence",
+         "(a) for 3e3 (quick) chain pairs up to 2e5 blocks, below and above every fork-id checkpoint, the estimate computed from the peer's fork id must not exceed the true fork height; (b) for every (prefix, own suffix, peer suffix) up to 4/4/5 (quick) and generated ones up to 12/6/14 under generated schedules with up to four pending fetches completed in any order, the syncing node must end on the peer's tip, the peer must stay put, and every lacking block must have been requested.",
+         "Per-direction message order on a connection is preserved (as a websocket does); the by-design 2^-16 checkpoint fingerprint collision is excluded from (a) by construction of the synthetic hashes. Out-of-order fetch completion with initial_loading_completed=false is known finding F10c (root cause F10).",
+         "DESIGN.md §3 C15"),
 }
 NOT_YET = {}
 
